@@ -33,3 +33,52 @@ OPERATORS = ("eq", "neq", "gt", "lt", "range")
 ADDRESS_KEYWORDS = ("any", "host", "object-group", "addrgroup")
 LOG_KEYWORDS = ("log", "log-input")
 TCP_FLAGS = ("ack", "fin", "psh", "rst", "syn", "urg")
+
+
+# Which keywords each platform / software family offers after `eq ?`.  This is a snapshot of the library's tables at the pinned commit (2026-09-28), spot-checked
+# against what is known of the devices (msrpc / onep-plain / onep-tls / ripv6: IOS-XE 16 only, drip: NX-OS only, ssh / https / ldap / ...: ASA only).  It is
+# reference data like the tables above, part of the trusted base: a platform's keyword list changes only when the vendor changes it, and then this table is
+# updated first.  Without it "valid for the platform" (C18) could only be asked of the library itself.
+REF_KEYWORDS = {
+    "TCP_NAME_PORT__ASA": {
+        "aol", "bgp", "chargen", "cifs", "citrix-ica", "ctiqbe", "daytime", "discard", "domain", "echo", "exec", "finger", "ftp", "ftp-data",
+        "gopher", "h323", "hostname", "https", "ident", "imap4", "irc", "kerberos", "klogin", "kshell", "ldap", "ldaps", "login", "lotusnotes",
+        "lpd", "netbios-ssn", "nfs", "nntp", "pcanywhere-data", "pim-auto-rp", "pop2", "pop3", "pptp", "rsh", "rtsp", "sip", "smtp", "sqlnet", "ssh",
+        "sunrpc", "tacacs", "talk", "telnet", "uucp", "whois", "www",
+    },
+    "TCP_NAME_PORT__IOS_15": {
+        "bgp", "chargen", "cmd", "daytime", "discard", "domain", "echo", "exec", "finger", "ftp", "ftp-data", "gopher", "hostname", "ident", "irc",
+        "klogin", "kshell", "login", "lpd", "nntp", "pim-auto-rp", "pop2", "pop3", "smtp", "sunrpc", "syslog", "tacacs", "talk", "telnet", "time",
+        "uucp", "whois", "www",
+    },
+    "TCP_NAME_PORT__IOS_16": {
+        "bgp", "chargen", "cmd", "daytime", "discard", "domain", "echo", "exec", "finger", "ftp", "ftp-data", "gopher", "hostname", "ident", "irc",
+        "klogin", "kshell", "login", "lpd", "msrpc", "nntp", "onep-plain", "onep-tls", "pim-auto-rp", "pop2", "pop3", "smtp", "sunrpc", "syslog",
+        "tacacs", "talk", "telnet", "time", "uucp", "whois", "www",
+    },
+    "TCP_NAME_PORT__NXOS": {
+        "bgp", "chargen", "cmd", "daytime", "discard", "domain", "drip", "echo", "exec", "finger", "ftp", "ftp-data", "gopher", "hostname", "ident",
+        "irc", "klogin", "kshell", "login", "lpd", "nntp", "pim-auto-rp", "pop2", "pop3", "smtp", "sunrpc", "tacacs", "talk", "telnet", "time",
+        "uucp", "whois", "www",
+    },
+    "UDP_NAME_PORT__ASA": {
+        "biff", "bootpc", "bootps", "cifs", "discard", "dnsix", "domain", "echo", "isakmp", "kerberos", "mobile-ip", "nameserver", "netbios-dgm",
+        "netbios-ns", "nfs", "ntp", "pcanywhere-status", "pim-auto-rp", "radius", "radius-acct", "rip", "secureid-udp", "sip", "snmp", "snmptrap",
+        "sunrpc", "syslog", "tacacs", "talk", "tftp", "time", "vxlan", "who", "www", "xdmcp",
+    },
+    "UDP_NAME_PORT__IOS_15": {
+        "biff", "bootpc", "bootps", "discard", "dnsix", "domain", "echo", "isakmp", "mobile-ip", "nameserver", "netbios-dgm", "netbios-ns",
+        "netbios-ss", "non500-isakmp", "ntp", "pim-auto-rp", "rip", "snmp", "snmptrap", "sunrpc", "syslog", "tacacs", "talk", "tftp", "time", "who",
+        "xdmcp",
+    },
+    "UDP_NAME_PORT__IOS_16": {
+        "biff", "bootpc", "bootps", "discard", "dnsix", "domain", "echo", "isakmp", "mobile-ip", "nameserver", "netbios-dgm", "netbios-ns",
+        "netbios-ss", "non500-isakmp", "ntp", "pim-auto-rp", "rip", "ripv6", "snmp", "snmptrap", "sunrpc", "syslog", "tacacs", "talk", "tftp",
+        "time", "who", "xdmcp",
+    },
+    "UDP_NAME_PORT__NXOS": {
+        "biff", "bootpc", "bootps", "discard", "dnsix", "domain", "echo", "isakmp", "mobile-ip", "nameserver", "netbios-dgm", "netbios-ns",
+        "netbios-ss", "non500-isakmp", "ntp", "pim-auto-rp", "rip", "snmp", "snmptrap", "sunrpc", "syslog", "tacacs", "talk", "tftp", "time", "who",
+        "xdmcp",
+    },
+}
